@@ -185,13 +185,54 @@ func init() {
 				return com.Args
 			}
 			returnsCall := func(f *ssa.Function, call *ssa.Call) bool {
-				// every return after the call forwards both results of the call
+				// every return hands out the URL of the funnel call, or no URL at all: no path produces a URL by other means
+				var fromCall func(v ssa.Value, depth int) bool
+				fromCall = func(v ssa.Value, depth int) bool {
+					if isNilConst(v) {
+						return true
+					}
+					if ex, ok := v.(*ssa.Extract); ok && ex.Tuple == ssa.Value(call) && ex.Index == 0 {
+						return true
+					}
+					// the URL of another resolution route (ParseRef with an empty base string is Parse)
+					if ex, ok := v.(*ssa.Extract); ok && ex.Index == 0 {
+						if oc, ok := ex.Tuple.(*ssa.Call); ok {
+							name := ""
+							if cl := oc.Common().StaticCallee(); cl != nil && core.PkgPathOf(cl) == core.ModPath+"/url" {
+								name = cl.Name()
+							} else if oc.Common().IsInvoke() {
+								name = oc.Common().Method.Name()
+							}
+							switch name {
+							case "Parse", "ParseRef", "BasicParser":
+								return true
+							}
+						}
+					}
+					if phi, ok := v.(*ssa.Phi); ok && depth < 4 {
+						for _, e := range phi.Edges {
+							if !fromCall(e, depth+1) {
+								return false
+							}
+						}
+						return true
+					}
+					return false
+				}
 				okAny := false
+				ff := Facts(c, f)
 				for _, b := range f.Blocks {
+					if !ff.Reachable(b) {
+						continue
+					}
 					if r, ok := b.Instrs[len(b.Instrs)-1].(*ssa.Return); ok && len(r.Results) == 2 {
-						e0, ok0 := r.Results[0].(*ssa.Extract)
-						e1, ok1 := r.Results[1].(*ssa.Extract)
-						if ok0 && ok1 && e0.Tuple == ssa.Value(call) && e1.Tuple == ssa.Value(call) && e0.Index == 0 && e1.Index == 1 {
+						if !fromCall(r.Results[0], 0) {
+							return false
+						}
+						if ex, ok := r.Results[0].(*ssa.Extract); ok && ex.Tuple == ssa.Value(call) {
+							okAny = true
+						}
+						if _, ok := r.Results[0].(*ssa.Phi); ok {
 							okAny = true
 						}
 					}
@@ -211,39 +252,93 @@ func init() {
 				}
 				s.Check(ok, "funnel/(*parser).Parse", c.P.Pos(f.Pos()), "return p.BasicParser(rawUrl, nil, nil, NoState)", "does not forward (rawUrl, nil, nil, NoState) to its own BasicParser and return the result")
 			}
-			// (*parser).ParseRef
+			// (*parser).ParseRef: every parser call is either "parse the base string alone" or "resolve ref against that
+			// base (or against nothing)"; every URL handed out comes from a resolving call
 			if f := c.P.Func("url", "parser", "ParseRef"); f == nil {
 				s.Unknown("funnel/(*parser).ParseRef", "-", "not found")
 			} else {
-				bps := findCalls(f, "BasicParser")
-				ps := findCalls(f, "Parse")
-				var bad []string
-				if len(bps) != 1 {
-					bad = append(bad, fmt.Sprintf("%d BasicParser calls", len(bps)))
-				} else {
-					a := argv(bps[0])
-					if a[0] != ssa.Value(f.Params[0]) || a[1] != ssa.Value(f.Params[2]) || !isNilConst(a[3]) || !isNoState(a[4]) {
-						bad = append(bad, "BasicParser is not called as (ref, base, nil, NoState) on the same parser")
+				recv, rawUrl, ref := ssa.Value(f.Params[0]), ssa.Value(f.Params[1]), ssa.Value(f.Params[2])
+				calls := append(findCalls(f, "BasicParser"), findCalls(f, "Parse")...)
+				isBaseCall := func(call *ssa.Call) bool {
+					a := argv(call)
+					if a[0] != recv || a[1] != rawUrl {
+						return false
 					}
-					// base: Extract 0 of p.Parse(rawUrl)
-					baseOK := false
-					if ex, ok := a[2].(*ssa.Extract); ok && ex.Index == 0 {
-						if pc, ok := ex.Tuple.(*ssa.Call); ok {
-							pa := argv(pc)
-							if cl := pc.Common().StaticCallee(); cl != nil && cl.Name() == "Parse" && pa[0] == ssa.Value(f.Params[0]) && pa[1] == ssa.Value(f.Params[1]) {
-								baseOK = true
+					if len(a) == 2 {
+						return true // p.Parse(rawUrl)
+					}
+					return len(a) == 5 && isNilConst(a[2]) && isNilConst(a[3]) && isNoState(a[4])
+				}
+				var isBase func(v ssa.Value, depth int) bool
+				isBase = func(v ssa.Value, depth int) bool {
+					if isNilConst(v) {
+						return true
+					}
+					if ex, ok := v.(*ssa.Extract); ok && ex.Index == 0 {
+						if bc, ok := ex.Tuple.(*ssa.Call); ok {
+							return isBaseCall(bc)
+						}
+					}
+					if phi, ok := v.(*ssa.Phi); ok && depth < 3 {
+						for _, e := range phi.Edges {
+							if !isBase(e, depth+1) {
+								return false
+							}
+						}
+						return true
+					}
+					return false
+				}
+				var bad []string
+				var resolving []*ssa.Call
+				for _, call := range calls {
+					a := argv(call)
+					switch {
+					case isBaseCall(call) && rawUrl != ref:
+						// fine: the base
+					case a[0] == recv && a[1] == ref && len(a) == 2:
+						resolving = append(resolving, call) // p.Parse(ref): no base
+					case a[0] == recv && a[1] == ref && len(a) == 5 && isBase(a[2], 0) && isNilConst(a[3]) && isNoState(a[4]):
+						resolving = append(resolving, call)
+					default:
+						bad = append(bad, fmt.Sprintf("the parser call at %s is neither Parse(rawUrl) nor BasicParser(ref, base, nil, NoState) with base = Parse(rawUrl) on the same parser", c.P.Pos(call.Pos())))
+					}
+				}
+				if len(resolving) == 0 {
+					bad = append(bad, "no call resolves ref against the parsed base")
+				}
+				// every returned URL: result 0 of a resolving call, or nil
+				ffp := Facts(c, f)
+				var fromRes func(v ssa.Value, depth int) bool
+				fromRes = func(v ssa.Value, depth int) bool {
+					if isNilConst(v) {
+						return true
+					}
+					if ex, ok := v.(*ssa.Extract); ok && ex.Index == 0 {
+						for _, rc := range resolving {
+							if ex.Tuple == ssa.Value(rc) {
+								return true
 							}
 						}
 					}
-					if !baseOK {
-						bad = append(bad, "the base is not the result of p.Parse(rawUrl)")
+					if phi, ok := v.(*ssa.Phi); ok && depth < 3 {
+						for _, e := range phi.Edges {
+							if !fromRes(e, depth+1) {
+								return false
+							}
+						}
+						return true
 					}
-					if !returnsCall(f, bps[0]) {
-						bad = append(bad, "the result of BasicParser is not returned as is")
+					return false
+				}
+				for _, b := range f.Blocks {
+					if r, ok := b.Instrs[len(b.Instrs)-1].(*ssa.Return); ok && ffp.Reachable(b) && len(r.Results) == 2 {
+						if !fromRes(r.Results[0], 0) {
+							bad = append(bad, "some return hands out a URL that is not the result of resolving ref (a path bypasses the resolution algorithm)")
+						}
 					}
 				}
-				_ = ps
-				s.Check(len(bad) == 0, "funnel/(*parser).ParseRef", c.P.Pos(f.Pos()), "base = p.Parse(rawUrl); return p.BasicParser(ref, base, nil, NoState)", strings.Join(bad, "; "))
+				s.Check(len(bad) == 0, "funnel/(*parser).ParseRef", c.P.Pos(f.Pos()), "base = p.Parse(rawUrl); return p.BasicParser(ref, base, nil, NoState)", strings.Join(uniq(bad), "; "))
 			}
 			// (*Url).Parse
 			if f := c.P.Func("url", "Url", "Parse"); f == nil {
@@ -261,7 +356,7 @@ func init() {
 					case a[1] != ssa.Value(f.Params[1]) || a[2] != ssa.Value(f.Params[0]) || !isNilConst(a[3]) || !isNoState(a[4]):
 						ok, why = false, "BasicParser is not called as (ref, u, nil, NoState)"
 					case !returnsCall(f, calls[0]):
-						ok, why = false, "the result of BasicParser is not returned as is"
+						ok, why = false, "some return hands out a URL that is not the result of BasicParser (a path bypasses the resolution algorithm)"
 					}
 				}
 				s.Check(ok, "funnel/(*Url).Parse", c.P.Pos(f.Pos()), "return u.parser.BasicParser(ref, u, nil, NoState)", why)
@@ -1093,4 +1188,22 @@ func portBufferDigitsOnly(c *Ctx, sm *smModel, call *ssa.Call) (bool, string) {
 		return false, "no buffer write found in " + state
 	}
 	return true, fmt.Sprintf("buffer discipline of %s: every write is guarded by ASCIIDigit.Test(uint(r)) and every entering edge resets the buffer", state)
+}
+
+// strconvDigitsOnly: the text handed to this strconv parse was validated to consist of digits only (the discharge
+// condition of FLOW-strconv), so the parsed number cannot be negative.
+func strconvDigitsOnly(c *Ctx, f *ssa.Function, call *ssa.Call) bool {
+	arg := call.Common().Args[0]
+	for _, fact := range Facts(c, f).At(call.Block()) {
+		if _, ok := digitValidation(fact, arg); ok {
+			return true
+		}
+	}
+	sm := BuildSM(c)
+	if sm.An != nil && f == sm.An.fn {
+		if ok, _ := portBufferDigitsOnly(c, sm, call); ok {
+			return true
+		}
+	}
+	return false
 }
